@@ -58,7 +58,9 @@ ArbAtoms == { MkNone, MkBool("T"), MkBool("F"), MkInt(0), MkInt(1), MkInt(5), Mk
               F15, F20, F50, C50, FNan, FInf, BigInt, C12, MkStr("s_a"), MkStr("s_empty"), MkStr("s_5"), MkBytes("b_x"), MkBArr("b_x") }
 ArbComposite == { MkList(<<>>), MkList(<<MkInt(1)>>), MkTuple(<<MkStr("s_a"), MkInt(1)>>),
                   MkDict(<<>>), MkDict(<< <<MkStr("s_a"), MkInt(1)>> >>), MkList(<<MkStr("s_a")>>),
-                  MkSeq("other", <<MkInt(1)>>), MkMap("proxy", << <<MkStr("s_a"), MkInt(1)>> >>) }
+                  MkSeq("other", <<MkInt(1)>>), MkMap("proxy", << <<MkStr("s_a"), MkInt(1)>> >>),
+                  \* a defaultdict with a live factory (looking up a missing key inserts it: the library must not do that)
+                  MkMap("ddlist", << <<MkStr("s_a"), MkInt(1)>> >>) }
 Arb == ArbAtoms \cup ArbComposite
 
 NastyStr == { MkStr(tk) : tk \in {"s_uni", "s_ml", "s_sp", "s_yes", "s_null", "s_tilde", "s_1e3", "s_date", "s_colon", "s_empty", "s_5"} }
@@ -247,7 +249,11 @@ Gen(T) ==
                  MkDict(<< <<MkStr(T.tk), T.tags[1]>>, <<MkStr(T.ck), okbody>>, <<MkStr("s_zz"), MkInt(1)>> >>),
                  MkDict(<< <<T.tags[1], okbody>>, <<MkStr("s_zz"), okbody>> >>),
                  MkDict(<< <<MkStr(T.tk), T.tags[1]>>, <<MkStr("s_zz"), okbody>> >>),
-                 MkMap("proxy", << <<MkStr(T.tag), T.tags[1]>>, <<MkStr("s_y"), MkInt(1)>> >>) }) \ {MkNone}
+                 MkMap("proxy", << <<MkStr(T.tag), T.tags[1]>>, <<MkStr("s_y"), MkInt(1)>> >>),
+                 MkMap("ddlist", << <<MkStr(T.tag), T.tags[1]>>, <<MkStr("s_y"), MkInt(1)>> >>),
+                 MkMap("ddlist", << <<MkStr("s_y"), MkInt(1)>> >>), MkMap("ddlist", << <<MkStr(T.tk), T.tags[1]>> >>),
+                 MkMap("ddlist", << <<MkStr(T.ck), okbody>> >>), MkMap("ddlist", << <<T.tags[1], okbody>> >>),
+                 MkMap("ddlist", << <<MkStr(T.tk), T.tags[1]>>, <<MkStr(T.ck), okbody>> >>) }) \ {MkNone}
     [] T.k = "cls"   ->
          LET F == SelectSeq(T.fs, LAMBDA f : f.init = "T")
              P == SelectSeq(F, LAMBDA f : f.kw = "F")
@@ -276,7 +282,7 @@ Gen(T) ==
          \cup { MkDict(Append(base, <<MkStr("s_zz"), MkInt(1)>>)),
                 MkDict(Append(base, <<MkInt(1), MkInt(1)>>)),
                 MkDict(SubSeq(base, 2, Len(base))),
-                MkMap("proxy", base),
+                MkMap("proxy", base), MkMap("ddlist", base), MkMap("ddlist", SubSeq(base, 2, Len(base))),
                 MkList(Append(pos, MkInt(1))), MkSeq("other", pos),
                 MkList(SubSeq(pos, 1, Len(pos) - 1)),
                 MkList(<<>>), MkStr("s_ab"), MkStr("s_a"), MkBytes("b_x") }
